@@ -162,6 +162,7 @@ def g_pump(modes):
     for mode in modes:
         for t in ("Command", "CommandResponseStream"):
             jobs.append((pump.unit_pump, (mode, t)))
+        jobs.append((pump.unit_pump, (mode, "Command", "custom")))
     return jobs
 
 
